@@ -18,7 +18,8 @@ FUNCTIONS = ["sigpy.mri.linop.Sense (incl. coil batching via Vstack)", "sigpy.mr
 BOUNDS = {"quick": "images 2x2, 2x3, 1x4 (2-D) and 2x2x2 (3-D), 2-3 coils, every coil_batch_size in 1..coils, Cartesian and 2 concrete non-Cartesian "
                    "coordinate sets (<= 3 points), weights None / symbolic >= 0; recon apps on 1x4 / 2x2 images with 2 coils",
           "thorough": "adds 3x3, 3x2, 4x4(1 coil batch), 3 coils in 3-D, more coordinate sets (ties, far outside, duplicates), weights per coil"}
-OUTSIDE = ["L1WaveletRecon with the real PyWavelets transform (compiled; the property conditions on unitarity, which is what the stub provides)",
+OUTSIDE = ["weights with a coil axis together with coil batching (weights are documented as k-space weights; the batched operator hands the full array to every batch)",
+           "L1WaveletRecon with the real PyWavelets transform (compiled; the property conditions on unitarity, which is what the stub provides)",
            "tseg off-resonance correction, comm (multi-process), GPU devices", "that the iterative solver reaches its fixed point within max_iter "
            "(C12/C13/C14)", "non-Cartesian coordinates are concrete (the Kaiser-Bessel kernel is transcendental in them); the NUFFT itself is C06/C01"]
 ASSUMPTIONS = ["weights = s^2 with s >= 0 symbolic (so that weights**0.5 = s without an auxiliary variable)",
@@ -127,7 +128,10 @@ def h_sense(cfg, V):
     ref_f = M.forward(x)
     ref_a = M.adjoint(y)
     obl = []
-    for cbs in [None] + list(range(1, M.nc + 1)):
+    sizes = [None] + list(range(1, M.nc + 1))
+    if cfg.get("weights") == "percoil":
+        sizes = [None, M.nc]      # weights are documented as k-space weights (one coil's shape): per-coil weights are only meaningful un-batched
+    for cbs in sizes:
         A = mlinop.Sense(M.mps, coord=M.coord, weights=M.weights, coil_batch_size=cbs)
         tag = "batch=%s" % cbs
         obl.append(("shapes:" + tag, O.const(list(A.ishape) == M.img and list(A.oshape) == [M.nc] + M.kshape)))
